@@ -23,7 +23,8 @@ def shapes(tier):
     sh = [("combos", [3], 0, []), ("combos", [2, 3], 0, []), ("combos", [2, 2, 2], 0, []),
           ("combos", [2], 1, [[3], [1]]), ("combos", [2], 2, [[1, 2], [2, 1], [2, 2]]),
           ("cases", [], 1, [[2], [3], [1]]), ("cases", [], 2, [[1, 1], [2, 2], [1, 2], [3, 1], [2, 3]]),
-          ("cases", [2], 1, [[3], [1], [2]]), ("combos", [7], 0, []), ("cases", [], 1, [[v] for v in (4, 2, 6, 1, 3, 7, 5)])]
+          ("cases", [2], 1, [[3], [1], [2]]), ("combos", [7], 0, []), ("cases", [], 1, [[v] for v in (4, 2, 6, 1, 3, 7, 5)]),
+          ("combos", [12], 0, []), ("combos", [5, 5], 0, []), ("cases", [], 1, [[v] for v in (11, 3, 7, 1, 9, 12, 5, 2, 10, 4, 8)])]
     if tier == "thorough":
         sh += [("combos", [3, 4], 0, []), ("combos", [5, 2, 2], 0, []), ("combos", [4, 10], 0, []),
                ("cases", [3], 2, [[1, 1], [2, 3], [3, 2], [1, 3]]), ("combos", [2, 2], 1, [[2], [1], [3]])]
@@ -45,7 +46,7 @@ def configs(tier):
         for bmode, bval in batchings(n, dense=(n <= 8 and tier == "thorough")):
             for sc, ss in shuffles(kind):
                 i += 1
-                if tier == "quick" and n > 8 and i % 2:
+                if tier == "quick" and n > 8 and i % 3:
                     continue
                 out.append(mk(grid, nca=nca, cases=cases, kind=kind, bmode=bmode, bval=bval, bwhere=("ctor", "sow")[i % 2],
                               shufCtor=sc, shufSow=ss, farmer="none"))
